@@ -551,6 +551,10 @@ def gen_trusted(rng, tier, n_classes):
         wire_table = [[n, wire_mapper(m)] for n, m in sorted(table.items())]
         base = {"suite": "shortcut", "mode": "trusted", "cls": cls, "mappers": wire_table, "mapperSpec": table,
                 "mapperDecls": decls, "enumKinds": pick_kinds(rng)}
+        if not table and len(cls["fields"]) >= 2 and rng.random() < 0.2:
+            # the class is declared as a SUBCLASS: its first k fields live in a parent class (the classifier, the enum
+            # mapping and from_trusted_data must go through get_all_fields_by_name, not the class's own __dict__)
+            base["split"] = rng.randint(1, len(cls["fields"]) - 1)
         chain_table = {n: {"chain": chain_of(dc)} for n, dc in decls.items()}
         for _ in range(4):
             kw = vg.valid_kw(cls)
@@ -1038,7 +1042,7 @@ def run_trusted(case):
     decl = case["cls"]
     table = case.get("mapperSpec") or {}
     try:
-        cls = build_tree(decl, ctx, table, mapper_decls=case.get("mapperDecls"))
+        cls = build_tree(decl, ctx, table, mapper_decls=case.get("mapperDecls"), split=case.get("split"))
     except Exception as e:
         return {"unbuildable": f"class: {type(e).__name__}: {e}"}
     bad = _check_class(cls, decl, ctx)
@@ -1286,6 +1290,8 @@ def tags(case, impl, model):
     for dc in (case.get("mapperDecls") or {}).values():
         out.append("mapper-decl:" + dc["kind"])
     if case["mode"] == "trusted":
+        if case.get("split"):
+            out.append("declared:subclass-with-inherited-fields")
         out.append("verdict:" + str(impl.get("verdict")))
         for key in ("regular", "trusted"):
             if key in impl:
